@@ -198,8 +198,17 @@ class SimWorld:
             value = yield self.label(env.timeout(op["d"], op.get("value")), "t:%r" % op["d"])
             self.log(name, "timeout-", op["d"], value)
         elif kind == "native":
-            value = yield (usim.time + op["d"])
-            self.log(name, "native-", op["d"], value)
+            if "value" in op or "raises" in op:
+                # a native coroutine (not a notification) yielded by the process
+                try:
+                    value = yield self._native_activity(op)
+                except SimProgError as err:
+                    self.log(name, "native!", op["d"], err.serial)
+                else:
+                    self.log(name, "native-", op["d"], value)
+            else:
+                value = yield (usim.time + op["d"])
+                self.log(name, "native-", op["d"], value)
         elif kind == "wait":
             try:
                 value = yield self.events[op["ev"]]
@@ -261,8 +270,16 @@ class SimWorld:
     async def native_step(self, name, op):
         kind = op["op"]
         if kind in ("native", "timeout"):
-            await (usim.time + op["d"])
-            self.log(name, kind + "-", op["d"], None)
+            if "value" in op or "raises" in op:
+                try:
+                    value = await self._native_activity(op)
+                except SimProgError as err:
+                    self.log(name, "native!", op["d"], err.serial)
+                else:
+                    self.log(name, "native-", op["d"], value)
+            else:
+                await (usim.time + op["d"])
+                self.log(name, kind + "-", op["d"], None)
         elif kind == "wait":
             try:
                 value = await self.events[op["ev"]]
@@ -314,6 +331,12 @@ class SimWorld:
                         proc = self.env.process(self.process(spec))
                         self.procs[spec["name"]] = proc
                         self.proc_name[id(proc)] = spec["name"]
+
+    async def _native_activity(self, op):
+        await (usim.time + op["d"])
+        if "raises" in op:
+            raise SimProgError(op["raises"])
+        return op.get("value")
 
     def _proc_label(self, event):
         name = self.proc_name.get(id(event))
